@@ -24,6 +24,12 @@ O2 "marker" (the auto-indent marker): every construct of CONSTRUCTS x every inde
               (resp. `{{ (e)|c19ref(ws) }}`), where c19ref is the harness' own reference filter; the marked rendering
               must equal the twin rendering with every reference segment X replaced by some text accepted for X by
               the same rule.
+    O2p "predecessors": the same twin oracle with the marker behind every kind of preceding tag (PREDS) with and without
+        that tag's '-' control x every gap of PRED_GAPS (newlines, blanks, NBSP, U+3000, form feed) x indentation; the
+        prefix is the run of blanks/tabs in front of the marker, or empty when the '-' control has consumed it.
+    O2i "inheritance": parent / child / grandchild sets, included and imported templates that carry markers (see the
+        comment at OI_WS): one marker occurrence at a time is replaced by the harness' reference filter, the lines of the
+        rendering with all markers must be those of that rendering.
 O3 "assert"/"usequery": `{% assert e %}` raises iff `not e` and renders nothing otherwise; every ifuses/ifnuses/
     elifuses/elifnuses/else chain with <=2 elif arms over 2 queries x all 4 truth assignments renders what the same
     if/elif/else chain renders (reference: plain Python evaluation, cross-checked with stock Jinja2's `{% if %}`).
@@ -803,11 +809,16 @@ def twin_match(marked: str, twin: str) -> bool:
     return rec(0, 0)
 
 
+_WS_TAIL = re.compile(r"\s*\Z")  # Python's own notion of white space (what '\s*' after '-%}' consumes)
+
+
 def o2_sources(case: dict) -> typing.Dict[str, typing.Any]:
     cons = {c.name: c for c in CONSTRUCTS}[case["construct"]]
     enc = {e[0]: e for e in ENCLOSURES}[case["enclosure"]]
     before = case["lead"] + case["ws"]
     ws_eff = before[len(before.rstrip(" \t")) :]  # the maximal run of blanks/tabs in front of the marker
+    if _WS_TAIL.sub("", before).endswith(("-%}", "-}}", "-#}")):
+        ws_eff = ""  # the '-' control of the previous tag has consumed all white space up to the marker
     lead_eff = before[: len(before) - len(ws_eff)]
     if cons.kind == "expr":
         marked = "{{* " + cons.body + " " + cons.endctl + "}}"
@@ -1006,6 +1017,310 @@ def o2_work(cases: typing.List[typing.Tuple[dict, typing.Tuple[bool, ...]]]) -> 
                     bag.add(sig, c, what)
         if len(samples) < 1 and base["enclosure"] == "in_for" and base["ws"] == "\t" and base["lead"] == "x\n":
             samples.append({**base, "template": o2_sources({**base})["marked"]})
+    return {"bag": bag, "st": st, "samples": samples}
+
+
+# ====================================================================================================== O2p predecessors
+# The marker behind every kind of preceding tag, with and without that tag's '-' white space control, separated from it
+# by nothing / newlines / blanks / white space that is not blank-or-tab (NBSP, U+3000, form feed), followed by the
+# marker's own run of blanks.  Evaluated by o2_eval (twin oracle): the prefix is the run of blanks/tabs directly in
+# front of the marker, or empty when the previous tag's '-' control has consumed the white space up to the marker.
+PREDS: typing.List[typing.Tuple[str, str, str]] = [  # (name, lead with C where the control goes, closing text)
+    ("text", "x", ""),
+    ("if_open", "{% if true C%}", "{% endif %}"),
+    ("else", "{% if false %}n{% else C%}", "{% endif %}"),
+    ("for_open", "{% for j in [1] C%}", "{% endfor %}"),
+    ("endif", "{% if b %}a{% endif C%}", ""),
+    ("set", "{% set q = 1 C%}", ""),
+    ("var", "{{ n C}}", ""),
+    ("comment", "{# c C#}", ""),
+    ("endraw", "{% raw %}r{% endraw C%}", ""),
+    ("marked_var", "{{* n C}}", ""),
+    ("filter_open", "{% filter upper C%}", "{% endfilter %}"),
+    ("block_open", "{% block pb C%}", "{% endblock %}"),
+]
+PRED_GAPS = ["", "\n", " \n", "\n\n", "\u00a0", "\u3000\n", "\x0c", "\n\u00a0"]
+PRED_WS = ["", "  ", "\t", " \t "]
+PRED_CONS = ["x_m", "x_m_rctl", "k_for", "k_if_one", "k_include", "k_raw", "k_block"]
+PRED_TRAILS = ["\ny\n", ""]
+PRED_CORE_ENVS = [(f, "lf") for f in tw.FLAGS] + [("plain", "crlf")]
+
+
+def op_space() -> typing.Iterator[typing.Tuple[dict, bool]]:
+    """(placement, in the quick core?)"""
+    for name, lead, close in PREDS:
+        for ctl in ("", "-") if "C" in lead else ("",):
+            for gap in PRED_GAPS:
+                for ws in PRED_WS:
+                    for cons in PRED_CONS:
+                        for trail in PRED_TRAILS:
+                            core = ws in ("", "  ") and cons in ("x_m", "k_include") and trail == "\ny\n"
+                            yield {
+                                "oracle": "marker",
+                                "space": "predecessor",
+                                "pred": name + ("-" if ctl else ""),
+                                "construct": cons,
+                                "enclosure": "none",
+                                "lead": lead.replace("C", ctl) + gap,
+                                "trail": trail + close,
+                                "ws": ws,
+                            }, core
+
+
+def op_after(case: dict) -> typing.Tuple[str, bool]:
+    """(signature class of the predecessor, has its '-' control consumed a non-empty run of blanks before the marker?)"""
+    before = case["lead"] + case["ws"]
+    eaten = o2_sources(case)["ws_eff"] != before[len(before.rstrip(" \t")) :]
+    unicode_gap = any(ord(ch) > 0x7F for ch in case["lead"])
+    return case["pred"].rstrip("-") + ("_with_ws_control" if eaten else "") + ("_unicode_space" if unicode_gap else ""), eaten
+
+
+def op_work(cases: typing.List[typing.Tuple[dict, bool]]) -> dict:
+    bag = Bag()
+    st: typing.Dict[str, int] = {}
+    samples: typing.List[dict] = []
+    for base, core in cases:
+        after, eaten = op_after(base)
+        for flags, le in PRED_CORE_ENVS if core else itertools.product(tw.FLAGS, tw.LINE_ENDINGS):
+            case = {**base, "flags": flags, "le": le}
+            st["cases"] = st.get("cases", 0) + 1
+            st["prefix_consumed_by_previous_tag"] = st.get("prefix_consumed_by_previous_tag", 0) + int(eaten)
+            for sig, c, what in o2_eval(case, range(len(CTXS)), st):
+                bag.add({**sig, "after": after}, c, what)
+        if not samples and eaten and "\n" in base["lead"] and base["construct"] == "k_include":
+            samples.append({**base, "template": o2_sources(base)["marked"]})
+    return {"bag": bag, "st": st, "samples": samples}
+
+
+# ====================================================================================================== O2i inheritance
+# Template sets (parent / child / grandchild, included and imported templates) in which SEVERAL places carry the marker.
+# A set is written with one token per marker occurrence; one occurrence at a time is the *focus*: the rendering with
+# all markers must have the lines of the rendering in which the focus is replaced by the harness' own reference filter
+# (`{% filter c19pfx(ws, keep) %}plain construct{% endfilter %}` resp. `{{ (e)|c19pfx(ws, keep) }}`; keep = with or
+# without the final line terminator, both accepted).  The other occurrences stay real markers (they are part of "the
+# plain construct" of the focus and are the focus of their own cases).
+# A marked block tag at the top level of a CHILD template is not rendered where it is written; the statement can be read
+# as (A) the block's own body is prefixed, (B) nothing is rendered there, so nothing is prefixed, (A') whatever fills
+# the block's place in the parent's layout is prefixed.  All three readings are accepted, anything else is reported.
+OI_WS = ("    ", "\t", "  ")
+OI_KINDS = ("none", "ov", "sup", "inner", "msup", "ovn", "ovnsup")
+OI_ENVS_CORE = [(f, "lf") for f in tw.FLAGS] + [("plain", "crlf")]
+
+
+def _tok(i: int) -> str:
+    return "\x10%d\x11" % i
+
+
+def _name(n: str) -> str:
+    return "\x13" + n + "\x14"
+
+
+def _pfx(ws: str) -> str:
+    return "c19pfx('" + ws + "', \x12)"
+
+
+class _Set:
+    def __init__(self) -> None:
+        self.occ: typing.List[dict] = []
+        self.templates: typing.List[typing.List[str]] = []  # [name, source], dependencies first
+
+    def tag(self, head: str, body: str, tail: str, ws: str, marked: bool, kind: str, **kw: typing.Any) -> str:
+        """A block-like construct `{% head %}body{% tail %}` (tail '' for a single tag such as include)."""
+        plain = "{% " + head + " %}" + body + ("{% " + tail + " %}" if tail else "")
+        o = dict(kind=kind, ws=ws, plain=plain, marked=(ws + "{%*" + plain[2:]) if marked else plain, focus=marked)
+        o["ref"] = "{% filter " + _pfx(ws) + " %}" + plain + "{% endfilter %}"
+        if head.startswith("block "):
+            o["body_ref"] = "{% " + head + " %}{% filter " + _pfx(ws) + " %}" + body + "{% endfilter %}{% " + tail + " %}"
+        o.update(kw)
+        self.occ.append(o)
+        return _tok(len(self.occ) - 1)
+
+    def expr(self, e: str, ws: str, kind: str) -> str:
+        o = dict(kind=kind, ws=ws, plain="{{ " + e + " }}", marked=ws + "{{* " + e + " }}", focus=True)
+        o["ref"] = "{{ (" + e + ")|" + _pfx(ws) + " }}"
+        self.occ.append(o)
+        return _tok(len(self.occ) - 1)
+
+    def case(self, label: str) -> dict:
+        return {"oracle": "inherit", "label": label, "templates": self.templates, "occ": self.occ}
+
+
+def oi_chain(root: typing.Tuple[str, bool, bool], levels: typing.Sequence[typing.Tuple[str, bool]]) -> dict:
+    s = _Set()
+    rbody, mark_body, mark_inner = root
+    over = {n: any(k in ks for k, _ in levels) for n, ks in (("body", ("ov", "sup", "inner", "msup")), ("inner", ("ovn", "ovnsup")))}
+    sfx = {n: "_overridden" if over[n] else "_not_overridden" for n in over}
+    slot: typing.Dict[str, int] = {}
+    body = "b1\n\nb2{{ v }}"
+    if rbody == "nested":
+        slot["inner"] = len(s.occ)
+        body = "b1\n" + s.tag("block inner", "i1\n i2", "endblock", " \t", mark_inner, "nested_block_tag_in_parent" + sfx["inner"]) + "\nb2"
+    slot["body"] = len(s.occ)
+    s.templates.append(["t0", "head\n" + s.tag("block body", body, "endblock", OI_WS[0], mark_body, "block_tag_in_parent" + sfx["body"]) + "\ntail{{ v }}\n"])
+    for k, (kind, mark) in enumerate(levels, 1):
+        L, ws = "cg"[k - 1], OI_WS[k]
+        src = "{% extends '" + _name("t%d" % (k - 1)) + "' %}"
+        if kind != "none":
+            name = "inner" if kind.startswith("ovn") else "body"
+            ob = {
+                "ov": f"{L}1\n\n{L}2{{{{ v }}}}",
+                "sup": f"{L}1\n{{{{ super() }}}}\n{L}2",
+                "ovn": f"{L}n1\n\n{L}n2",
+                "ovnsup": f"{L}n1\n{{{{ super() }}}}",
+            }.get(kind)
+            if kind == "inner":
+                ob = f"{L}1\n" + s.expr("m", "  ", "expr_in_override") + f"\n{L}2"
+            elif kind == "msup":
+                ob = f"{L}1\n" + s.expr("super()", " \t", "super_expr_in_override") + f"\n{L}2"
+            src += "\n" + s.tag("block " + name, ob, "endblock", ws, mark, "block_tag_in_child_template", top_child=True, slot=slot[name]) + "\n"
+        s.templates.append(["t%d" % k, src])
+    label = "%s%s%s|" % (rbody, "*" if mark_body else "", "+inner*" if mark_inner else "") + "|".join(k + ("*" if m else "") for k, m in levels)
+    return s.case(label)
+
+
+def oi_extras() -> typing.Iterator[dict]:
+    """Included / imported templates that carry markers, with and without a marker on the include / the macro call."""
+    for outer in (False, True):
+        s = _Set()
+        inc = "i0\n" + s.expr("m", "  ", "expr_in_included_template") + "\n"
+        inc += s.tag("if b", "q\nr{{ v }}", "endif", "\t", True, "block_in_included_template") + "\ni9\n"
+        s.templates.append(["inc", inc])
+        s.templates.append(["main", "x\n" + s.tag("include '" + _name("inc") + "'", "", "", "    ", outer, "include_of_marked_template") + "\ny\n"])
+        yield s.case("include%s" % ("*" if outer else ""))
+        s = _Set()
+        lib = "{% macro f(a) %}f0\n" + s.expr("a", "  ", "expr_in_imported_macro") + "\n"
+        lib += s.tag("for i in [1, 2]", "{{ i }}\n-", "endfor", "\t", True, "block_in_imported_macro") + "\nf9{% endmacro %}"
+        s.templates.append(["lib", lib])
+        call = s.expr("L.f(m)", "    ", "call_of_imported_marked_macro") if outer else "{{ L.f(m) }}"
+        s.templates.append(["main", "{% import '" + _name("lib") + "' as L %}x\n" + call + "\ny\n"])
+        yield s.case("import%s" % ("*" if outer else ""))
+        # an included template that itself extends a parent with a marked block
+        s = _Set()
+        s.templates.append(["p", "head\n" + s.tag("block body", "b1\nb2", "endblock", "  ", True, "block_tag_in_parent_overridden") + "\ntail\n"])
+        s.templates.append(["c", "{% extends '" + _name("p") + "' %}{% block body %}c1\n\nc2{% endblock %}"])
+        s.templates.append(["main", "x\n" + s.tag("include '" + _name("c") + "'", "", "", "\t", outer, "include_of_inheriting_template") + "\ny\n"])
+        yield s.case("include_child%s" % ("*" if outer else ""))
+        # a marked block tag inside a for loop of the parent (scoped), overridden
+        s = _Set()
+        loop = s.tag("block body scoped", "b{{ i }}\nx", "endblock", "  ", True, "scoped_block_tag_in_parent_overridden")
+        s.templates.append(["p", "{% for i in [1, 2] %}\n" + loop + "\n{% endfor %}"])
+        s.templates.append(["c", "{% extends '" + _name("p") + "' %}{% block body %}c{{ i }}\n" + ("{{ super() }}\n" if outer else "") + "d{% endblock %}"])
+        yield s.case("scoped%s" % ("+super" if outer else ""))
+
+
+def oi_space() -> typing.Iterator[typing.Tuple[dict, bool]]:
+    """(template set, in the quick core?)  Roots: flat body / body with a nested block, each tag marked or not;
+    below: every kind of override x tag marked or not, depth <= 2."""
+    roots = [("flat", mb, False) for mb in (False, True)] + [("nested", mb, mi) for mb in (False, True) for mi in (False, True)]
+    for root in roots:
+        lv = [("none", False)] + [(k, m) for k in OI_KINDS[1:] if root[0] == "nested" or not k.startswith("ovn") for m in (False, True)]
+        yield oi_chain(root, []), True
+        for a in lv:
+            yield oi_chain(root, [a]), True
+            for b in lv:
+                yield oi_chain(root, [a, b]), a[0] == "none" and not b[0].startswith("ovn")
+    for c in oi_extras():
+        yield c, True
+
+
+def c19pfx(value: typing.Any, ws: str, keep: bool) -> str:
+    """Reference filter: every non-empty line prefixed, terminators kept; keep=False drops the final terminator."""
+    out = ref_prefix_text(str(value), ws)
+    return out if keep else strip1(out)
+
+
+_TOK = re.compile("\x10(\\d+)\x11")
+_NAME = re.compile("\x13(\\w+)\x14")
+
+
+def oi_render(case: dict, forms: typing.Dict[int, str], flags: str, le: str, ctx: dict) -> tw.Outcome:
+    """Render the last template of the set with the given forms for some occurrences (default: the real marker).
+    Templates get content-addressed names, so that identical sources are compiled once per Environment."""
+    env = _o2_env(flags, le)
+    env.filters.setdefault("c19pfx", c19pfx)
+    occ = case["occ"]
+    names: typing.Dict[str, str] = {}
+    final = ""
+    for name, src in case["templates"]:
+        while "\x10" in src:
+            src = _TOK.sub(lambda m: forms.get(int(m.group(1)), occ[int(m.group(1))]["marked"]), src)
+        src = tw.with_le(_NAME.sub(lambda m: names[m.group(1)], src), le)
+        final = names[name] = "oi%08x_%d" % (_h(src), len(src))
+        env.loader.mapping[final] = src
+    tw.COUNT["renders"] += 1
+    try:
+        return ("ok", env.get_template(final).render(**ctx))
+    except Exception as e:  # pylint: disable=broad-except
+        return ("err", tw.family(e))
+
+
+def oi_eval(case: dict, st: typing.Optional[dict] = None) -> typing.Optional[typing.Tuple[dict, str]]:
+    """One (template set, focus, flags, line ending, context)."""
+    st = st if st is not None else {}
+
+    def bump(k: str) -> None:
+        st[k] = st.get(k, 0) + 1
+
+    occ, i, flags, le = case["occ"], case["focus"], case["flags"], case["le"]
+    o = occ[i]
+    ctx = {k: v for k, v in CTXS[case["ctx"]].items() if not isinstance(v, tw.MarkupSpec)}
+    keeps = (("true", "keep"), ("false", "strip"))
+    cands: typing.List[typing.Tuple[str, typing.Dict[int, str]]] = []
+    if o.get("top_child"):
+        j = o["slot"]
+        cands += [("body_" + n, {i: o["body_ref"].replace("\x12", k)}) for k, n in keeps]
+        cands += [("no_effect", {i: o["plain"]})]
+        cands += [("slot_" + n, {i: o["plain"], j: "{% filter " + _pfx(o["ws"]).replace("\x12", k) + " %}" + occ[j]["marked"] + "{% endfilter %}"}) for k, n in keeps]
+    else:
+        cands += [("ref_" + n, {i: o["ref"].replace("\x12", k)}) for k, n in keeps]
+    bump("evals")
+    plain = oi_render(case, {i: o["plain"]}, flags, le, ctx)
+    if plain[0] == "err":
+        bump("plain_form_raises")
+        return None
+    bump("plain_form_rendered")
+    want = [(n, oi_render(case, f, flags, le, ctx)) for n, f in cands]
+    want = [(n, w[1]) for n, w in want if w[0] == "ok"]
+    if not want:
+        bump("no_reference_rendering")
+        return None
+    bump("reference_rendered")
+    if any(w.splitlines() != plain[1].splitlines() for _n, w in want):
+        bump("nontrivial")
+    got = oi_render(case, {}, flags, le, ctx)
+    sig = {"oracle": "inherit", "kind": "lines_differ", "construct": o["kind"]}
+    tpls = {n: _TOK.sub(lambda m: occ[int(m.group(1))]["marked"], _TOK.sub(lambda m: occ[int(m.group(1))]["marked"], s)) for n, s in case["templates"]}
+    tpls = {n: _NAME.sub(lambda m: m.group(1), s) for n, s in tpls.items()}
+    if got[0] == "err":
+        sig["kind"] = "marked_construct_raises"
+        return sig, f"template set {tpls!r} [{flags}, {le}, ctx {case['ctx']}] raises {got[1]} although the set with {o['marked']!r} unmarked renders"
+    for n, w in want:
+        if got[1].splitlines() == w.splitlines():
+            bump("accepted_as_" + n)
+            return None
+    return sig, (
+        f"template set {tpls!r} [{flags}, {le}, ctx {case['ctx']}], last template rendered: {got[1]!r}; with the marker of "
+        f"{o['marked']!r} replaced by the reference prefixing of the plain construct: " + " or ".join(f"{w!r} ({n})" for n, w in want)
+    )
+
+
+def oi_work(cases: typing.List[typing.Tuple[dict, bool]]) -> dict:
+    bag = Bag()
+    st: typing.Dict[str, int] = {}
+    samples: typing.List[dict] = []
+    for base, core in cases:
+        st["template_sets"] = st.get("template_sets", 0) + 1
+        for i, o in enumerate(base["occ"]):
+            if not o["focus"]:
+                continue
+            for flags, le in OI_ENVS_CORE if core else itertools.product(tw.FLAGS, tw.LINE_ENDINGS):
+                for ci in (0, 2):
+                    case = {**base, "focus": i, "flags": flags, "le": le, "ctx": ci}
+                    ev = oi_eval(case, st)
+                    if ev is not None:
+                        bag.add(ev[0], case, ev[1])
+        if not samples and base["label"].count("*") >= 2 and "sup" in base["label"]:
+            samples.append({"oracle": "inherit", "label": base["label"], "templates": base["templates"]})
     return {"bag": bag, "st": st, "samples": samples}
 
 
@@ -1293,7 +1608,8 @@ def verify_exclusions() -> typing.Tuple[typing.List[dict], Bag]:
 def _work(job: typing.Tuple[str, typing.Any]) -> dict:
     kind, payload = job
     before = dict(tw.COUNT)
-    r = {"o1": o1_work, "of": of_work, "o2": o2_work, "o3": o3_work, "lx": lx.work, "hs": lx.history_work}[kind](payload)
+    fn = {"o1": o1_work, "of": of_work, "o2": o2_work, "o3": o3_work, "lx": lx.work, "hs": lx.history_work, "op": op_work, "oi": oi_work}
+    r = fn[kind](payload)
     return {"kind": kind, "count": {k: tw.COUNT[k] - before[k] for k in before}, **r}
 
 
@@ -1309,8 +1625,10 @@ def eval_case(case: dict) -> typing.Optional[typing.Tuple[dict, str]]:
     if o == "marker":
         for sig, c, what in o2_eval(case, [case["ctx"]]):
             if c.get("mode") == case.get("mode"):
-                return sig, what
+                return ({**sig, "after": op_after(case)[0]} if case.get("space") == "predecessor" else sig), what
         return None
+    if o == "inherit":
+        return oi_eval(case)
     if o == "assert":
         return o3_assert_eval(dict(case))
     if o == "usequery":
@@ -1367,7 +1685,22 @@ def run(ctx: Ctx) -> int:
         if core or ctx.in_slice(cid, 16 if len(chain["events"]) == 1 else 128):
             hsc.append(chain)
     ofc = list(of_space())  # filter arguments: small, always complete
+    # marker behind every kind of preceding tag: fixed core + 1/64 slice; inheritance / include / import sets: core + 1/32
+    opc: typing.List[typing.Tuple[dict, bool]] = []
+    op_total = 0
+    for case, core in op_space():
+        op_total += 1
+        if core or ctx.in_slice("OP:" + repr(sorted(case.items())), 64):
+            opc.append((case, core and not ctx.thorough))
+    oic: typing.List[typing.Tuple[dict, bool]] = []
+    oi_total = 0
+    for case, core in oi_space():
+        oi_total += 1
+        if core or ctx.in_slice("OI:" + case["label"], 32):
+            oic.append((case, core and not ctx.thorough))
     jobs: typing.List[typing.Tuple[str, typing.Any]] = [("o3", None)]
+    jobs += [("oi", oic[i : i + 12]) for i in range(0, len(oic), 12)]
+    jobs += [("op", opc[i : i + 60]) for i in range(0, len(opc), 60)]
     jobs += [("hs", hsc[i : i + 24]) for i in range(0, len(hsc), 24)]
     jobs += [("of", ofc[i : i + 300]) for i in range(0, len(ofc), 300)]
     jobs += [("lx", lxc[i : i + 400]) for i in range(0, len(lxc), 400)]
@@ -1382,6 +1715,8 @@ def run(ctx: Ctx) -> int:
     outcomes: typing.Set[int] = set()
     o2st: typing.Dict[str, int] = {}
     o3st: typing.Dict[str, typing.Any] = {}
+    opst: typing.Dict[str, int] = {}
+    oist: typing.Dict[str, int] = {}
     lxst: typing.Dict[str, int] = {}
     hsst: typing.Dict[str, int] = {}
     ofst: typing.Dict[str, int] = {}
@@ -1416,6 +1751,13 @@ def run(ctx: Ctx) -> int:
             outcomes |= r["outcomes"]
             for s in r["samples"]:
                 if not any(x.get("oracle") == "filter" for x in ctx.samples):
+                    ctx.samples.append(s)
+        elif r["kind"] in ("op", "oi"):
+            dst = opst if r["kind"] == "op" else oist
+            for k, v in r["st"].items():
+                dst[k] = dst.get(k, 0) + v
+            for s in r["samples"]:
+                if not any(x.get("oracle") == s["oracle"] and x.get("space") == s.get("space") for x in ctx.samples):
                     ctx.samples.append(s)
         elif r["kind"] == "o2":
             for k, v in r["st"].items():
@@ -1475,6 +1817,11 @@ def run(ctx: Ctx) -> int:
         "histories: ordinary templates where a tag did something": hsst.get("hist_nontrivial", 0),
         "histories: event templates stock refuses with the markers removed": hsst.get("hist_event_templates_stock_refuses_demarked", 0),
         "histories: event templates stock renders with the markers removed": hsst.get("hist_event_templates_stock_renders_demarked", 0),
+        "marker behind a preceding tag: twin references rendered": opst.get("twin_reference_rendered", 0),
+        "marker behind a preceding tag: placements where the tag's '-' control consumes the blanks": opst.get("prefix_consumed_by_previous_tag", 0),
+        "marker behind a preceding tag: expected multi-line renderings with non-empty indentation": opst.get("nontrivial", 0),
+        "inheritance/include/import sets: reference renderings": oist.get("reference_rendered", 0),
+        "inheritance/include/import sets: reference renderings that differ from the unmarked set": oist.get("nontrivial", 0),
         "o3 assertions expected to raise": o3st.get("assert_expected_to_raise", 0),
         "o3 assertions expected to pass": o3st.get("assert_expected_to_pass", 0),
         "o3 usequery distinct reference outputs (>=6)": int(o3st.get("usequery_distinct_outputs", 0) >= 6),
@@ -1492,9 +1839,9 @@ def run(ctx: Ctx) -> int:
         ctx.stats["vacuity_guards_failed_but_violations_reported"] = failed
 
     evals = tot["evals"] + lxst.get("evals", 0) + o2st.get("evals", 0) + o3st.get("assert_evals", 0) + o3st.get("usequery_evals", 0)
-    evals += ofst.get("evals", 0) + hsst.get("hist_histories", 0)
+    evals += ofst.get("evals", 0) + hsst.get("hist_histories", 0) + opst.get("evals", 0) + oist.get("evals", 0)
     nontrivial = tot["nontrivial"] + lxst.get("nontrivial", 0) + o2st.get("nontrivial", 0) + o3st.get("assert_expected_to_raise", 0)
-    nontrivial += ofst.get("nontrivial", 0) + hsst.get("hist_nontrivial", 0)
+    nontrivial += ofst.get("nontrivial", 0) + hsst.get("hist_nontrivial", 0) + opst.get("nontrivial", 0) + oist.get("nontrivial", 0)
     ctx.stats.update(
         template_compilations=count["compiles"],
         renders=count["renders"],
@@ -1523,6 +1870,12 @@ def run(ctx: Ctx) -> int:
         o2_placements=len(o2),
         o2_space=o2_total,
         o2=o2st,
+        o2_predecessor_placements=len(opc),
+        o2_predecessor_space=op_total,
+        o2_predecessor=opst,
+        o2_inheritance_sets=len(oic),
+        o2_inheritance_space=oi_total,
+        o2_inheritance=oist,
         o3=o3st,
         marker_scope_probes_statistic_only=scope,
         pristine_alternatives_removed=removed,
@@ -1554,7 +1907,15 @@ def run(ctx: Ctx) -> int:
         f"({hsst.get('hist_histories', 0)} histories); "
         f"O2: {len(o2)} of {o2_total} placements ({len(CONSTRUCTS)} "
         f"constructs x {len(ENCLOSURES)} enclosures x {len(LEADS)} leads x {len(TRAILS)} trails x {len(WS)} indentations)"
-        f" x flags x line endings x contexts, {o2_ae_n} of them also with autoescape on; O3: {o3st.get('assert_evals')} assertions, "
+        f" x flags x line endings x contexts, {o2_ae_n} of them also with autoescape on; marker behind a preceding tag: "
+        f"{len(opc)} of {op_total} placements ({len(PREDS)} kinds of preceding tag/text with and without '-' control x "
+        f"{len(PRED_GAPS)} gaps (none, newlines, blanks, NBSP, U+3000, form feed) x {len(PRED_WS)} indentations x "
+        f"{len(PRED_CONS)} constructs x {len(PRED_TRAILS)} trails; quick core: all flag sets with LF + plain/CRLF, the rest "
+        f"all flag sets x LF/CRLF) x contexts; inheritance: {len(oic)} of {oi_total} template sets (6 parents = flat / nested "
+        f"block, each tag marked or not; children and grandchildren: no override / override / with super() / marked expression "
+        f"/ marked super() / override of the nested block (with super()), each tag marked or not; plus include / import / "
+        f"include of an inheriting template / scoped block sets), every marker occurrence as the focus x flags x line "
+        f"endings x 2 contexts ({oist.get('evals', 0)} evaluations); O3: {o3st.get('assert_evals')} assertions, "
         f"{o3st.get('usequery_chains')} use-query chains x 4 truth assignments",
         "exhaustive": bool(ctx.thorough),
         "excluded_constructs": excluded,
